@@ -121,4 +121,30 @@ theorem C14_pinned_slot_has_a_consumer_partial (N : Nat) (wait : WaitK) (fut : B
   | [], l3, _ => exact absurd l3 h
   | u :: _, _, l2 => exact ⟨u, (l2 u).mp (List.mem_cons_self ..)⟩
 
+set_option maxHeartbeats 4000000 in
+/-- program points of a receive attempt on a shared path (before the outcome is handed to the wait / return logic) -/
+def PC.inAttempt : PC → Bool
+  | .r0 | .u1 .recvStart | .u2 .recvStart _ | .u3 .recvStart _ | .is1 | .la1 | .la2
+  | .r1 _ _ | .r2 _ _ | .r3 _ _ | .r3b _ _ | .r4 _ | .r5 _ _ | .r6 _ | .r7 _ | .rd _ _ | .rc _ _ _ | .r8 _ _ | .r9 _ _ _
+  | .fg _ _ => true
+  | _ => false
+
+set_option maxHeartbeats 4000000 in
+/-- C14 (every exit of a receive attempt of a futures receiver goes through `notify_all`): a thread that is inside a
+receive attempt (`try_recv`, blocking `recv`, shared-stream `poll`) on a futures handle either stays inside the
+attempt or moves to the step that locks the senders' list and wakes every parked sender (`nf true _`) — it never
+goes on to wait or to return directly. The one exception is `poll` returning `None` (`Disconnected`: no sender
+handle is left, see C07). This is what F7 and F17 violated. -/
+theorem C14_attempt_exits_through_notify (σ : St) (t inp : Nat) (hf : (σ.hs (σ.th t).g).fut = true)
+    (ho : (σ.th t).outer = .tryRecv ∨ (σ.th t).outer = .recv ∨ (σ.th t).outer = .poll false)
+    (ha : (σ.th t).pc.inAttempt = true) :
+    ((stepRun σ t inp).2.th t).pc.inAttempt = true ∨ (∃ k, ((stepRun σ t inp).2.th t).pc = .nf true k) ∨
+    ((stepRun σ t inp).2.th t).pc = .ret .none_ := by
+  cases hpc : (σ.th t).pc
+  case u1 k => cases k <;> (rw [hpc] at ha; first | (simp [PC.inAttempt] at ha; done) | (rcases ho with ho | ho | ho <;> (pin_unf hpc <;> (repeat' split) <;> simp_all [PC.inAttempt, St.goto, St.gotoF, St.flush, St.setTh, St.setHd, upd])))
+  case u2 k e => cases k <;> (rw [hpc] at ha; first | (simp [PC.inAttempt] at ha; done) | (rcases ho with ho | ho | ho <;> (pin_unf hpc <;> (repeat' split) <;> simp_all [PC.inAttempt, St.goto, St.gotoF, St.flush, St.setTh, St.setHd, upd])))
+  case u3 k e => cases k <;> (rw [hpc] at ha; first | (simp [PC.inAttempt] at ha; done) | (rcases ho with ho | ho | ho <;> (pin_unf hpc <;> (repeat' split) <;> simp_all [PC.inAttempt, St.goto, St.gotoF, St.flush, St.setTh, St.setHd, upd])))
+  all_goals (rw [hpc] at ha; first | (simp [PC.inAttempt] at ha; done) | (rcases ho with ho | ho | ho <;> (pin_unf hpc <;> (repeat' split) <;> simp_all [PC.inAttempt, St.goto, St.gotoF, St.flush, St.setTh, St.setHd, upd])))
+
+
 end MQ
